@@ -25,7 +25,8 @@ Print Assumptions C01_fragment_rows.
 (* the reference semantics is the LINQ one: with total predicates, Count = length of the filtered collection *)
 Theorem C01_count_is_filter_length :
   forall (ev : event) (ps : list pred) (f : value -> bool) (l : list value) (a : Z),
-  passes_total ev ps l f -> count_loop ev ps l a = ROk (a + Z.of_nat (List.length (filter f l)))%Z.
+  passes_total ev ps l f ->
+  agg_loop ev "int" ACount ps l (VInt a) = ROk (VInt (a + Z.of_nat (List.length (filter f l))))%Z.
 Proof. intros. apply count_is_filter_length. assumption. Qed.
 Print Assumptions C01_count_is_filter_length.
 
@@ -57,8 +58,8 @@ Print Assumptions C01_names_distinct.
 Definition jets : collref := {| c_base := "jets"; c_ctype := "const xAOD::JetContainer*"; c_bank := "aj"; c_arrow := true |}.
 Definition trks : collref := {| c_base := "tracks"; c_ctype := "const xAOD::TrackParticleContainer*"; c_bank := "t"; c_arrow := true |}.
 Definition q0 : ex :=
-  EBin OAdd (ECount {| k_coll := jets; k_preds := [{| p_op := ">"; p_l := PMeth "pt"; p_r := PInt 30 |}] |})
-            (EBin OMul (EInt 2) (ECount {| k_coll := trks; k_preds := [] |})).
+  EBin OAdd (ECount {| k_coll := jets; k_preds := [{| p_op := ">"; p_l := PMeth "pt"; p_r := PInt 30 |}]; k_agg := ACount |})
+            (EBin OMul (EInt 2) (ECount {| k_coll := trks; k_preds := []; k_agg := ACount |})).
 Definition ev0 : event :=
   {| ev_colls := [(("const xAOD::JetContainer*", "aj"), VVec [VObj 0; VObj 1; VObj 2]);
                   (("const xAOD::TrackParticleContainer*", "t"), VVec [VObj 3; VObj 4])];
